@@ -388,3 +388,55 @@ func orderDraw(c *Ctx, n int, site string) int {
 	}
 	return c.Tape.Draw(n, site)
 }
+
+// RecvOrDone is a two-case select for harness code (which the rewriter does not
+// instrument): receive from ch unless done is closed.  When both are ready the
+// tape decides, as it does for the instrumented selects of the code under test.
+func RecvOrDone[T any](site string, done <-chan struct{}, ch <-chan T) (v T, ok bool) {
+	for _, i := range SelectOrder(2, site) {
+		if i == 0 {
+			select {
+			case <-done:
+				return v, false
+			default:
+			}
+		} else {
+			select {
+			case v = <-ch:
+				return v, true
+			default:
+			}
+		}
+	}
+	select {
+	case <-done:
+		return v, false
+	case v = <-ch:
+		return v, true
+	}
+}
+
+// SendOrDone is the sending counterpart of RecvOrDone; false if done won.
+func SendOrDone[T any](site string, done <-chan struct{}, ch chan<- T, v T) bool {
+	for _, i := range SelectOrder(2, site) {
+		if i == 0 {
+			select {
+			case <-done:
+				return false
+			default:
+			}
+		} else {
+			select {
+			case ch <- v:
+				return true
+			default:
+			}
+		}
+	}
+	select {
+	case <-done:
+		return false
+	case ch <- v:
+		return true
+	}
+}
